@@ -29,16 +29,23 @@ def models(rng, ngenes=None, prefix=""):
     return genes
 
 
-def gff3(genes, shuffle_rng=None):
+def gff3(genes, shuffle_rng=None, shaped_ids=False, parts=False):
+    """shaped_ids: exons are called exon_1, exon_2, ... (the shape gffutils itself generates);
+    parts: every exon gets an 'exon_part' child, a fourth tier below gene > mRNA > exon."""
     lines = ["##gff-version 3"]
     body = []
+    nex = 0
     for g in genes:
         body.append("%s\tsrc\tgene\t%d\t%d\t.\t%s\t.\tID=%s;Name=%s_name" % (g["seqid"], g["start"], g["end"], g["strand"], g["id"], g["id"]))
         for t in g["txs"]:
             ts, te = min(e[0] for e in t["exons"]), max(e[1] for e in t["exons"])
             body.append("%s\tsrc\tmRNA\t%d\t%d\t.\t%s\t.\tID=%s;Parent=%s" % (g["seqid"], ts, te, g["strand"], t["id"], g["id"]))
             for i, (s, e) in enumerate(t["exons"]):
-                body.append("%s\tsrc\texon\t%d\t%d\t.\t%s\t.\tID=%s.e%d;Parent=%s" % (g["seqid"], s, e, g["strand"], t["id"], i, t["id"]))
+                nex += 1
+                eid = "exon_%d" % nex if shaped_ids else "%s.e%d" % (t["id"], i)
+                body.append("%s\tsrc\texon\t%d\t%d\t.\t%s\t.\tID=%s;Parent=%s" % (g["seqid"], s, e, g["strand"], eid, t["id"]))
+                if parts:
+                    body.append("%s\tsrc\texon_part\t%d\t%d\t.\t%s\t.\tID=%s.p;Parent=%s" % (g["seqid"], s, min(e, s + 5), g["strand"], eid, eid))
             for i, (s, e) in enumerate(t["cds"]):
                 body.append("%s\tsrc\tCDS\t%d\t%d\t.\t%s\t0\tID=%s.c%d;Parent=%s" % (g["seqid"], s, e, g["strand"], t["id"], i, t["id"]))
     if shuffle_rng is not None:
